@@ -72,13 +72,18 @@ func scenarioStress() int {
 		runs = ev.Pick(3, 12)
 	}
 	perClient := ev.Pick(250, 2500)
-	dnsMode := os.Getenv("VF_IN_NS") == "1" && (ev.Thorough() || os.Getenv("VF_DNS") != "")
+	dnsMode := os.Getenv("VF_IN_NS") == "1"
 	seenSig := map[string]bool{}
 	totalMsgs := 0
 	for r := 0; r < runs && run.Violations() <= 6; r++ {
 		gmp := []int{2, 4, 16}[r%3]
 		nl := 2 + (r+int(run.Seed))%3
-		n := stressRun(run, r, gmp, nl, perClient, dnsMode && r%2 == 1, seenSig)
+		pc := perClient
+		dns := dnsMode && r%2 == 1
+		if dns && !ev.Thorough() {
+			pc = perClient * 3 // long enough for several 2 s polling rounds of the proxy
+		}
+		n := stressRun(run, r, gmp, nl, pc, dns, seenSig)
 		totalMsgs += n
 	}
 	run.Observe("messages_total", totalMsgs)
